@@ -9,12 +9,12 @@ package openapi3
 // interleaving of such calls is race-free and each call's result is a
 // function of its own inputs.
 
-//verif:harness id=C15 tier=quick,thorough witness=end bounds="VisitJSON on shared schemas: string with pattern (first use compiles and caches it), array with uniqueItems, object with defaults and oneOf branches (request mode with DefaultsSet), number with format; values symbolic as in C01/C13; footprint monitor on every path"
+//verif:harness id=C15 tier=quick,thorough witness=end bounds="VisitJSON on shared schemas: string with pattern (first use compiles and caches it), array with uniqueItems, object with defaults and oneOf branches (request mode with DefaultsSet), object/array-valued defaults with nested defaults, number with format; values symbolic as in C01/C13; footprint monitor on every path"
 func verifH_C15_visit() {
 	var s *Schema
 	var v any
 	opts := []SchemaValidationOption{}
-	switch verifChoose("family", 4) {
+	switch verifChoose("family", 5) {
 	case 0:
 		s = &Schema{Type: &Types{"string"}, Pattern: "^[a-c]+$", Format: "date"}
 		v = verifASCII("v", 2)
@@ -39,6 +39,20 @@ func verifH_C15_visit() {
 		m := verifFiniteFloat("min")
 		s = &Schema{Type: &Types{"integer"}, Format: "int32", Min: &m}
 		v = verifFiniteFloat("n")
+	case 4:
+		// an object-valued (or array-valued) default whose own schema has a nested default: the
+		// default belongs to the shared document and must be copied into the value, not aliased
+		d := verifFiniteFloat("d")
+		var dflt any = map[string]any{}
+		inner := &Schema{Type: &Types{"object"}, Properties: Schemas{"n": {Value: &Schema{Type: &Types{"number"}, Default: d}}}}
+		if verifChoose("arr", 2) == 1 {
+			dflt = []any{map[string]any{}}
+			inner = &Schema{Type: &Types{"array"}, Items: &SchemaRef{Value: inner}}
+		}
+		inner.Default = dflt
+		s = &Schema{Type: &Types{"object"}, Properties: Schemas{"cfg": {Value: inner}}}
+		v = map[string]any{}
+		opts = append(opts, VisitAsRequest(), DefaultsSet(func() {}))
 	}
 	if verifChoose("multi", 2) == 1 {
 		opts = append(opts, MultiErrors())
